@@ -2,9 +2,9 @@ SPECIFICATION Spec
 CONSTANTS
   Writers = {"a", "b", "c"}
   FrameLen <- Lens
-  Coalesce = FALSE
+  Coalesce = TRUE
   RefuseAfterTorn = TRUE
   AllowCancel = TRUE
-  ArmBeforeRefuse = FALSE
+  ArmBeforeRefuse = TRUE
   MaxFaults = 2
 INVARIANTS WholeFrames NothingAfterPartial OkImpliesWhole NotStartedNoBytes CountExact
